@@ -624,6 +624,17 @@ class LayoutPlugin(Plugin):
                     if self.ctx.branch(sym.num_cmp("==", seg.len, 0), None):
                         continue
                 cur.append(seg)
+            elif isinstance(seg, Lit):
+                # literal text may contain other white space (newlines, tabs): they separate words too
+                import re
+
+                for piece in re.findall(r"\s+|\S+", seg.text):
+                    if piece.isspace():
+                        if cur:
+                            words.append(LStr(cur))
+                            cur = []
+                    else:
+                        cur.append(Lit(piece))
             else:
                 cur.append(seg)
         if cur:
